@@ -71,7 +71,7 @@ def phase(rep, pid, tier, sources=None):
             fixed = [s for s in sources if not s["id"].startswith("g")]
             gen_ = [s for s in sources if s["id"].startswith("g")]
             sources = rnd.sample(fixed, min(len(fixed), 700)) + rnd.sample(gen_, min(len(gen_), 900))
-    sources = sources + [{"id": f"hand{i}", "src": x} for i, x in enumerate(HAND)]
+    sources = sources + [{"id": f"hand{i}", "src": x} for i, x in enumerate(HAND)] + [dict(x, id="self-" + x["id"]) for x in B.SELF_SRCS]
     r2 = B.run(d, sources, dialects="all", tag="src")
     nrel = 0
     for r in (r1, r2):
